@@ -6,9 +6,10 @@ C01_ARITH = [
     r"^add::(body|post#[12])$", r"^mul::(body|post#1)$", r"^neg::(body|post#[12])$", r"^abs::(body|post#[12])$",
     r"^max::(body|post#[12])$", r"^min::(body|post#[12])$", r"^Number_sign::(body|post#[12])$",
     r"^Number_is_zero::(body|post#[12])$", r"^Number_is_negative::(body|post#[12])$", r"^int_pow::(body|post#[123])$",
-    r"^lemma::",
+    r"^lemma::(?!lemma_dashu)",
 ]
 C02_ARITH = [
+    r"^lemma::lemma_dashu_ratio_to_f64_correctly_rounded$",
     r"^(rnd_i|rnd_f|result_f|float_i_to_f|float_r_to_f|float|unary_float_fn_template|sin|cos|tan|log|exp|asin|acos|atan|float_fractional_part|float_integer_part|sqrt|atan2|Number_div|div|float_pow|pow|round|floor|ceiling|truncate|zero_divisor_eval_error|undefined_eval_error)::", r"^rational_from_number::(body|post#4)$",
     r"^add::(body|post#[34])$", r"^mul::(body|post#[23])$", r"^neg::(body|post#3)$", r"^abs::(body|post#3)$",
     r"^max::(body|post#3)$", r"^min::(body|post#3)$", r"^int_pow::(body|post#[14])$",
